@@ -275,6 +275,26 @@ def main(chk: C.Check, build_: C.Build) -> None:
                         {"source": src, "shorthand_indexes": psh, "paths": [{k: nd[k] for k in ("root", "start", "text")} for nd in nodes],
                          "how": "analyze(); Environment(undefined=StrictUndefined) render / render_async with all roots but one bound"})
 
+    # render-time errors of multi-template programs (include / render / extends, break and
+    # continue unwinding through partials, macros): named template, span, line and column
+    prog_checks = 0
+    for templates, entry, expect, strict in G.program_cases(C.rng("c17-programs", chk.tier), chk.tier):
+        cnt, pfail = L.program_check(templates, entry, expect, strict)
+        prog_checks += cnt
+        if pfail:
+            chk.finding("oracle:" + pfail.split(":")[0], pfail,
+                        {"templates": templates, "entry": entry, "failing_construct_in": expect, "strict_undefined": strict,
+                         "how": "Environment(loader=DictLoader(templates)).get_template(entry).render() / render_async()"})
+
+    # line numbers of translatable messages nested in blocks that start on earlier lines
+    extr_checks = 0
+    for src in G.extraction_cases(C.rng("c17-extract", chk.tier), chk.tier):
+        cnt, efail = L.extraction_check(src)
+        extr_checks += cnt
+        if efail:
+            chk.finding("oracle:" + efail.split(":")[0], efail,
+                        {"source": src, "how": "liquid2.messages.extract_from_template(Environment().from_string(source))"})
+
     # correspondence, in groups that share base definitions
     items.sort(key=lambda x: x["base"])
     for gi in range(0, len(items), GROUP):
@@ -294,7 +314,7 @@ def main(chk: C.Check, build_: C.Build) -> None:
                  "(i.e. the scanner left lex_markup's CONTENT branch)"),
         "samples": samples,
         "distribution": {"families": fam, "outcomes": outcomes, "bases": len(cs.bases), "ast_nodes_and_expressions_checked": ast_nodes,
-                         "error_locations_checked": loc_checked, "analysis_variable_spans_checked": var_spans,
+                         "error_locations_checked": loc_checked, "multi_template_render_error_locations_checked": prog_checks, "extracted_message_lines_checked": extr_checks, "analysis_variable_spans_checked": var_spans,
                          "nested_path_span_and_undefined_location_checks": path_checks, "of_which_on_a_line_after_the_first": loc_line_gt1,
                          "of_which_at_column_0_of_a_later_line": loc_col0_line_gt1,
                          "markup_token_classes_seen": sorted(kinds_seen)},
